@@ -151,6 +151,9 @@ def _layer_comp(c, o):
         c['refs'] = copy.deepcopy(o['refs'])
     if o.get('args') is not None:
         c['args'] = o['args']
+        c.pop('argt', None)
+        if o.get('argt'):
+            c['argt'] = copy.deepcopy(o['argt'])
     if o.get('vars'):
         c['vars'] = dict(c.get('vars') or {}, **o['vars'])
     if o.get('rvars'):
@@ -778,6 +781,79 @@ def _check_components(exp, comps, where):
     return fails
 
 
+def _ref_regex(owner_stage, stage, name, file, method):
+    """a reference to component (stage, name) in either spelling that names it from a component of `owner_stage`"""
+    body = re.escape(name) + ('' if file is None else '/' + re.escape(file)) + ':' + re.escape(method)
+    pre = re.escape('stage%d.' % stage)
+    return (pre if stage != owner_stage else '(?:%s)?' % pre) + body
+
+
+def command_line_tokens(c):
+    """the tokens of the command line of component c as the generator wrote it (None when they are not known): the
+    command line is <text added later> + render_argt(c['argt']) + <text added later>"""
+    argt = c.get('argt')
+    if not argt:
+        return None
+    core = render_argt(argt)
+    pos = c['args'].find(core) if core else -1
+    if pos < 0:
+        return None
+    return [{'lit': c['args'][:pos]}] + list(argt) + [{'lit': c['args'][pos + len(core):]}]
+
+
+def command_line_regex(c, tokens, o, counts, aggregates):
+    """What the property says about the command line of the emitted component `o` of component c: the text the user
+    wrote around the references is unchanged; a reference (with the file path that follows it) to a replicated producer
+    is, in copy i, the reference to copy i with that path; in an aggregating component it is the N references to the
+    copies 0..N-1, in index order, each with that path (separated by white space, or by commas for `path,`); every
+    other reference is unchanged.  Spelling (relative / absolute) of a reference is free."""
+    parts = []
+    for t in tokens:
+        if 'lit' in t:
+            parts.append(re.escape(t['lit']))
+            continue
+        r = t['ref']
+        path = re.escape(t.get('path') or '')
+        comma = ',' if t.get('comma') else ''
+        n = counts.get(cid(r['stage'], r['name']))
+
+        def one(name):
+            return _ref_regex(c['stage'], r['stage'], name, r.get('file'), r['method']) + path
+
+        if n is not None and o['replica'] is not None:
+            parts.append(one('%s%d' % (r['name'], o['replica'])) + comma)
+        elif n is not None and aggregates:
+            sep = r'(?:[ \t]+|[ \t]*,[ \t]*)' if comma else r'[ \t]+'
+            parts.append(sep.join(one('%s%d' % (r['name'], i)) for i in range(n)) + (',?' if comma else ''))
+        else:
+            parts.append(one(r['name']) + comma)
+    return '^' + ''.join(parts) + '$'
+
+
+def _check_args(case, exp, comps, where):
+    """the command lines of the replicated components `comps` (raw: before variables are substituted)"""
+    fails = []
+    if 'error' in exp or not isinstance(comps, list):
+        return fails
+    got = {c['id']: c for c in comps}
+    counts = {o['of']: o['replicate'] for o in exp['comps'] if o['replica'] is not None}
+    byid = {cid(c['stage'], c['name']): c for c in case['comps']}
+    for o in exp['comps']:
+        c, g = byid[o['of']], got.get(o['id'])
+        tokens = command_line_tokens(c)
+        if g is None or tokens is None:
+            continue
+        aggregates = is_agg(case, c) is True
+        rx = command_line_regex(c, tokens, o, counts, aggregates)
+        if re.match(rx, g['args'], re.S) is None:
+            uses = any('ref' in t and cid(t['ref']['stage'], t['ref']['name']) in counts for t in tokens)
+            slug = 'copy-command-line-does-not-consume-its-own-copies' if o['replica'] is not None else \
+                'aggregator-command-line-does-not-consume-the-copies-in-index-order' if (aggregates and uses) else \
+                'command-line-outside-replicated-region-changed'
+            fails.append((slug, dict(where, component=o['id'], written=c['args'], got=g['args'], expected_regex=rx)))
+    return fails
+
+
 REPLICA_TOKEN = re.compile(r'rep=(\S*)')
 
 
@@ -825,6 +901,8 @@ def _check_view(case, exp, view, where):
         return [('loader-rejects-valid-workflow', dict(where, error=view['error']))]
     fails.extend(_check_components(exp, view['comps'], where))
     fails.extend(_check_layered(exp, view.get('layered'), where))
+    fails.extend(_check_args(case, exp, view.get('layered') if view.get('layered') is not None else view['comps'],
+                             where))
     if view['nodes'] != exp['nodes']:
         fails.append(('wrong-node-set', dict(where, expected=exp['nodes'], got=view['nodes'])))
     if view['edges'] != exp['edges']:
@@ -913,6 +991,8 @@ def _oracle_main(case, exp, out):
         return [('replication-raises-on-valid-workflow', {'error': out['replicate_error']})]
     fails.extend(_check_components(exp, out['comps'], {'path': 'FlowIRConcrete.replicate'}))
     fails.extend(_check_layered(exp, out.get('layered'), {'path': 'FlowIRConcrete.replicate'}))
+    fails.extend(_check_args(case, exp, out['layered'] if out.get('layered') is not None else out['comps'],
+                             {'path': 'FlowIRConcrete.replicate'}))
     # the same expansion whatever the order in which the components are processed
     for r in out.get('runs', []):
         where = {'path': 'FlowIR.apply_replicate', 'processing_order': r['order']}
@@ -921,6 +1001,7 @@ def _oracle_main(case, exp, out):
         else:
             fails.extend(_check_components(exp, r['comps'], where))
             fails.extend(_check_layered(exp, r.get('layered'), where))
+            fails.extend(_check_args(case, exp, r['layered'] if r.get('layered') is not None else r['comps'], where))
     if 'graph_error' in out:
         fails.append(('loader-rejects-valid-workflow', {'error': out['graph_error']}))
     else:
@@ -942,28 +1023,52 @@ def gen_ref(rng, cstage, p, declared_files=None):
             'file': rng.choice(FILES), 'method': rng.choice(METHODS)}
 
 
+# what a command line puts around a reference: (text right before it, text GLUED right after it).  The second half of the
+# list is ordinary shell: command substitution, pipes, redirections, command separators directly after the reference
+# or after the file path that follows it
+AROUND = [('', ''), ('', ''), ('', ''), ('--in=', ''), ('-f ', ''), ('"', '"'), ("'", "'"), ('(', ''),
+          ('$(cat ', ')'), ('"$(cat ', ')"'), ('`cat ', '`'), ('(', ')'), ('', ';'), ('', '|'), ('', '| uniq'),
+          ('', '>all.csv'), ('', ';echo done'), ('sort <', '&'), ('', '&&'), ('x=$(cat ', '); echo $x'),
+          ('', ');'), ('[ -f ', ' ]'), ('', '>>log'), ('', '|tee o.txt')]
+PATHS = ['/sub/x.txt', '/f*.dat', '/a/b', '/x.txt', '/A', '/out/e.csv', '/res_1.csv', '/d.ir/f.dat']
+
+
+def render_argt(argt):
+    """the command line a list of tokens stands for: {'lit': text} | {'ref': reference, 'path': '/..' | '', 'comma': bool}"""
+    return ''.join(t['lit'] if 'lit' in t else render(t['ref']) + t.get('path', '') + (',' if t.get('comma') else '')
+                   for t in argt)
+
+
 def gen_args(rng, c, comps):
-    toks = []
+    """-> (command line, its tokens).  Every token that is a reference to a component is kept as such (with the
+    spelling used, the file path appended to it and the comma of the aggregator's `path,` idiom): the oracle knows what
+    the user wrote around each reference."""
+    argt = []
     for r in c['refs']:
         if rng.random() < 0.2 or (r['comp'] and r['method'] == 'copyout'):
             # (`:copyout` on a command line is read as `:copy` + `out` by the loader's argument scanner -- not C03)
             continue
+        pre, post = rng.choice(AROUND) if rng.random() < 0.6 else rng.choice(AROUND[:8])
+        if argt:
+            pre = ' ' + pre
         if r['comp']:
             alt = dict(r)
             if r['stage'] == c['stage'] and rng.random() < 0.3:
                 alt['long'] = not r['long']
-            t = render(alt)
-            if r['method'] == 'ref' and rng.random() < 0.35:
-                t += rng.choice(['/sub/x.txt', '/f*.dat', '/a/b', '/x.txt,', '/A'])
+            tok = {'ref': alt, 'path': '', 'comma': False}
+            if r['method'] == 'ref' and rng.random() < 0.45:
+                tok['path'] = rng.choice(PATHS)
+                tok['comma'] = rng.random() < 0.2
+            if pre:
+                argt.append({'lit': pre})
+            argt.append(tok)
         else:
-            t = render(r)
-        t = rng.choice(['', '', '', '--in=', '-f ', '"', "'", '(']) + t
-        if t[0] in '"\'':
-            t += t[0]
-        toks.append(t)
+            argt.append({'lit': pre + render(r)})
+        if post:
+            argt.append({'lit': post})
         if rng.random() < 0.15:
-            toks.append(rng.choice(['-n', '--flag', '-x=1', '>', 'out.txt', 'A', 'ref']))
-    return ' '.join(toks)
+            argt.append({'lit': ' ' + rng.choice(['-n', '--flag', '-x=1', '>', 'out.txt', 'A', 'ref'])})
+    return render_argt(argt), argt
 
 
 def _fmt_count(rng, n):
@@ -1225,9 +1330,10 @@ def add_platforms(rng, case):
                     refs.append(gen_ref(rng, c['stage'], q))
                 rng.shuffle(refs)
                 o['refs'] = refs
-                o['args'] = gen_args(rng, {'refs': refs, 'stage': c['stage']}, comps)
+                o['args'], o['argt'] = gen_args(rng, {'refs': refs, 'stage': c['stage']}, comps)
             elif c['refs'] and rng.random() < 0.5:
-                o['args'] = (rng.choice(['-p ', '--platform ', '']) + gen_args(rng, c, comps)).strip()
+                o['args'], o['argt'] = gen_args(rng, c, comps)
+                o['args'] = (rng.choice(['-p ', '--platform ', '']) + o['args']).strip()
             if rng.random() < 0.35:
                 vs = {}
                 for v in cvars + fvars:
@@ -1399,7 +1505,7 @@ def gen_case(rng, kind=None, p_var=None, p_sibling=None, p_own=0.35):
             c['agg'] = rng.choice(TRUE_SPELLINGS)
         elif rng.random() < 0.1:
             c['agg'] = rng.choice([False, 'no', 'false'])
-        c['args'] = gen_args(rng, c, comps)
+        c['args'], c['argt'] = gen_args(rng, c, comps)
         comps.append(c)
     order = list(range(len(comps)))
     rng.shuffle(order)
@@ -1615,6 +1721,18 @@ def _features(case):
         tags.append('stage-or-global-scope-defines-replica')
     if any('%(replica)s' in c['args'] for c in case['comps']):
         tags.append('command-line-uses-replica')
+    for c in case['comps']:
+        toks = command_line_tokens(c) or []
+        for a, b in zip(toks, toks[1:] + [{'lit': ''}]):
+            if 'ref' not in a:
+                continue
+            who = 'aggregated' if (is_agg(case, c) is True and cid(a['ref']['stage'], a['ref']['name']) in region_of) \
+                else 'replicated' if cid(a['ref']['stage'], a['ref']['name']) in region_of else 'plain'
+            nxt = b.get('lit', ' ')[:1]
+            tags.append('command-line:%s-%s-then-%s' % (who, 'path' if a.get('path') else 'reference',
+                        'comma-idiom' if a.get('comma') else 'end-or-space' if nxt in ('', ' ') else
+                        'quote' if nxt in '"\'' else 'shell-punctuation'))
+    tags = sorted(set(tags))
     nontrivial = bool(copies) and rewired > 0
     if case.get('history'):
         h = case['history']
@@ -1818,8 +1936,17 @@ def shrink(what, case):
         except Exception:  # noqa
             return False
 
-    def plain_args(x, refs, old):
-        a = ' '.join(render(r) for r in refs if not (r['comp'] and r['method'] == 'copyout'))
+    def plain_args(x, refs, old, blk=None, keep_tokens=True):
+        blk = x if blk is None else blk
+        if blk.get('argt') and keep_tokens:
+            # the command line keeps what the user wrote around the references that are still declared
+            blk['argt'] = [t for t in blk['argt'] if 'lit' in t or any(_same_ref(t['ref'], r) for r in refs)]
+            a = render_argt(blk['argt']).strip()
+            if a != render_argt(blk['argt']):
+                blk.pop('argt')
+        else:
+            blk.pop('argt', None)
+            a = ' '.join(render(r) for r in refs if not (r['comp'] and r['method'] == 'copyout'))
         for nm in RVAR_NAMES:
             if '%%(%s)s' % nm in old:
                 a += ' --%s=%%(%s)s' % (nm, nm)
@@ -1827,17 +1954,23 @@ def shrink(what, case):
             a += ' rep=%(replica)s'
         return a.strip()
 
-    def plain(c):
+    def plain(c, keep_tokens=True):
         c = copy.deepcopy(c)
         for x in c['comps']:
-            x['args'] = plain_args(x, x['refs'], x['args'])
+            x['args'] = plain_args(x, x['refs'], x['args'], None, keep_tokens and tokens_matter)
             for o in (x.get('over') or {}).values():
                 if o.get('args') is not None:
-                    o['args'] = plain_args(x, o['refs'] if o.get('refs') is not None else x['refs'], o['args'])
+                    o['args'] = plain_args(x, o['refs'] if o.get('refs') is not None else x['refs'], o['args'], o,
+                                           keep_tokens and tokens_matter)
         c['order'] = list(range(len(c['comps'])))
         c['orders'] = shrink_orders(len(c['comps'])) if not c.get('history') else [c['order']]
         return c
 
+    # the text around the references is first dropped altogether (plain list of the declared references); when the
+    # failure needs it, it is kept (and kept in step with the declared references)
+    tokens_matter = False
+    if not fails(plain(normalise(case))):
+        tokens_matter = True
     case = normalise(case)
     cur = plain(case)
     if not fails(cur):
@@ -1966,7 +2099,7 @@ def R(stage, name, long=False, file=None, method='ref'):
     return {'comp': True, 'stage': stage, 'long': long, 'name': name, 'file': file, 'method': method}
 
 
-def K(stage, name, refs=(), n=None, agg=None, args=None, vars=None, over=None, rvars=None):
+def K(stage, name, refs=(), n=None, agg=None, args=None, vars=None, over=None, rvars=None, argt=None):
     refs = list(refs)
     if isinstance(n, str):
         repl = {'how': 'var', 'var': n}
@@ -1978,6 +2111,11 @@ def K(stage, name, refs=(), n=None, agg=None, args=None, vars=None, over=None, r
         c['over'] = copy.deepcopy(over)
     if rvars:
         c['rvars'] = copy.deepcopy(rvars)
+    if argt:
+        # T(text) / (reference, path[, comma]) tokens: the command line is their rendering
+        c['argt'] = [{'lit': t} if isinstance(t, str) else
+                     {'ref': t[0], 'path': t[1], 'comma': bool(t[2:] and t[2])} for t in argt]
+        c['args'] = render_argt(c['argt'])
     return c
 
 
@@ -2120,6 +2258,22 @@ CORPUS = [
                            {'files': [], 'primitive': True},
                            {'files': [], 'primitive': False, 'platform': 'hpc'},
                            {'files': [], 'primitive': False}]}},
+    # ordinary shell around aggregated references: command substitution, pipe, redirection, `;` glued to the file path
+    # (or to the reference itself); the same command line in a replicated consumer and in an unreplicated component
+    {'kind': 'corpus:aggregated-path-then-shell-punctuation', 'gvars': {}, 'svars': {},
+     'comps': [K(0, 'Prepare'), K(0, 'Sim', [R(0, 'Prepare')], n=3),
+               K(1, 'Collect', [R(0, 'Sim', long=True), R(0, 'Prepare', long=True)], agg=True,
+                 argt=['-c "echo lines=$(cat ', (R(0, 'Sim', long=True), '/out/energies.csv'), '); sort ',
+                       (R(0, 'Sim', long=True), '/energies.csv'), '| uniq >all.csv; wc -l ',
+                       (R(0, 'Sim', long=True), '/summary.txt'), ' ', (R(0, 'Sim', long=True), ''), '; cat <',
+                       (R(0, 'Sim', long=True), '/a.csv', True), '>o; ls ', (R(0, 'Prepare', long=True), '/seed.txt'),
+                       ')"']),
+               K(0, 'Post', [R(0, 'Sim'), R(0, 'Prepare')],
+                 argt=['x=$(cat ', (R(0, 'Sim'), '/out/e.csv'), '); sort ', (R(0, 'Sim', long=True), '/e.csv'), '|uniq>',
+                       (R(0, 'Prepare'), '/o.txt'), ';']),
+               K(1, 'Report', [R(1, 'Collect'), R(0, 'Prepare', long=True)],
+                 argt=['$(cat ', (R(1, 'Collect'), '/all.csv'), ');ls ', (R(0, 'Prepare', long=True), '/seed.txt'),
+                       '|wc'])]},
 ]
 
 
@@ -2136,7 +2290,14 @@ def run(ctx):
                 "few counts given through a variable that only siblings define (must be rejected), references "
                 "in both spellings with optional (nested) file paths and the six non-loop methods, direct references "
                 "to files named like components, aggregators spelled True/yes/true/y, command lines using the "
-                "references with path suffixes and separators; the document lists the components in a random order and "
+                "references with path suffixes and separators, and with ordinary shell text glued right before / right "
+                "after a reference or the file path that follows it (command substitution `$(cat X:ref/f)`, back "
+                "ticks, `;` `|` `>` `>>` `<` `&` `&&` `)` `]`, quotes, the aggregator's `path,` idiom): the command line "
+                "is kept as tokens and the raw command line of every emitted component must be the text the user wrote "
+                "with each reference token replaced as the property says (copy i: copy i of a replicated producer; "
+                "aggregator: the N copies in index order, each with the file path of the token, separated by blanks "
+                "or commas; everything else unchanged; spelling of a reference free); "
+                "the document lists the components in a random order and "
                 "FlowIR.apply_replicate is additionally driven with the components in explicit processing orders "
                 "(topological, reversed, two random shuffles: every pair of components in both relative orders). "
                 "In half of the cases variables called like the injected one are defined: `replica` by components for "
